@@ -88,6 +88,13 @@ def run_module(mod, tag=""):
         return res
     gen_text = open(gen).read()
     res["assumptions"] = scan_assumptions(gen_text)
+    unmodelled = re.findall(r"^// R9-UNMODELLED: (.*)$", gen_text, re.M)
+    if unmodelled and mod == "names":
+        # the lemmas of this module quantify over the complete family of generated names
+        res["status"] = "undecided"
+        res["errors"].append({"kind": "tool-limit", "first": "names table incomplete", "owner": None, "owners": [],
+                              "text": "name constructor(s) outside the shapes rule R9 models: " + "; ".join(unmodelled)})
+        return res
     cmd = ["verus", gen, "--output-json", "--time", "--rlimit", RLIMIT, "--multiple-errors", "3"]
     res["checker_cmd"] = "tools/extract/target/release/extract plan.json gen.rs log.json && " + " ".join(
         ["verus", "gen.rs"] + cmd[2:])
